@@ -795,11 +795,18 @@ def _explore_harness(h, shape, M):
         M.results = []
         M.explorer = ex
         enough = False
+        timed_out = None
+        alg.EXPLORE_DEADLINE[0] = t_start + 420.0
         try:
             h.run(shape, M)
         except EnoughRefuted:
             enough = True
+        except alg.Undecided as ue_:
+            if "exceeds its time budget" not in str(ue_):
+                raise
+            timed_out = str(ue_)  # what was established so far is kept; the rest is undecided, never held
         finally:
+            alg.EXPLORE_DEADLINE[0] = None
             S.set_decider(None)
             M.explorer = None
         for r in M.results:
@@ -808,6 +815,10 @@ def _explore_harness(h, shape, M):
         for i in range(len(prefix), len(ex.trace)):
             stack.append(ex.trace[:i] + [not ex.trace[i]])
         npaths += 1
+        if timed_out:
+            allres.append({"name": "paths/all-explored", "status": "undecided", "backend": "z3", "secs": 0.0,
+                           "detail": "%d paths explored (the last one not to its end): %s" % (npaths, timed_out)})
+            break
         if enough or (stack and sum(1 for r in allres if r["status"] == "failed") >= 16):
             break  # the contract is already refuted on the explored paths; further paths add nothing to the verdict
         if stack and (npaths >= 1024 or (npaths >= 8 and time.time() - t_start > 45.0) or time.time() - t_start > 240.0):
